@@ -374,6 +374,18 @@ func (x *confExec) do(op *confOp) {
 	case "update":
 		group.Update()
 		c.Count("ops.update", 1)
+	case "breakdesc":
+		// what a reader sees of a description that is being written in place
+		w.vfs.Put("/sim/groups/"+op.Group+".json", []byte(`{"users":{"olga":{"password":"pw-ol`))
+		c.Count("fault.description_unreadable", 1)
+	case "fixdesc":
+		for i := range x.groups {
+			if x.groups[i].Name == op.Group {
+				g := x.groups[i]
+				w.putGroup(g.Name, descOf(&g))
+				c.Count("fault.description_repaired", 1)
+			}
+		}
 	case "editdesc":
 		for i := range x.groups {
 			if x.groups[i].Name == op.Group {
